@@ -42,6 +42,9 @@ func VerifC39multisig() {
 	members := make([]c39member, n)
 	for i := 0; i < n; i++ {
 		members[i] = c39member{id: byte(i), verdict: v.Bool(), calls: &calls, sig: []byte{0xA0 + byte(i), v.U8()}}
+		if i > 0 && v.Choice(2) == 1 {
+			members[i] = members[i-1] // the SAME key listed twice: its own slot still needs its own signature
+		}
 		keys[i] = members[i]
 	}
 	pms := PublicKeyMultiSignature{PublicKeys: keys}
@@ -58,7 +61,7 @@ func VerifC39multisig() {
 		if src >= n {
 			src = 0
 		}
-		allRight = allRight && src == j
+		allRight = allRight && j < n && members[src].id == members[j].id // (a repeated key has one signature)
 		ms = ms.AddSignatureByIndex(members[src].sig, j)
 	}
 	for j := 0; j < k; j++ {
